@@ -631,9 +631,11 @@ func (r *run) request(tok string, id uint32, oneway, plain bool) []byte {
 	sc := r.sc
 	if sc.Proto == "Http1" {
 		h := [][2]string{{mesh.TokenHeader, tok}}
-		if sc.ReqTimeout && !plain {
+		// (a plain request carries the global timeout too: with none on the route it would run under the 60 s default,
+		// and "every request of this listener has ended" could not be judged when its upstream connection fails unnoticed)
+		if sc.ReqTimeout {
 			h = append(h, [2]string{"x-mosn-global-timeout", strconv.Itoa(sc.GlobalMs)})
-			if sc.TryMs > 0 {
+			if sc.TryMs > 0 && !plain {
 				h = append(h, [2]string{"x-mosn-try-timeout", strconv.Itoa(sc.TryMs)})
 			}
 		}
@@ -647,9 +649,9 @@ func (r *run) request(tok string, id uint32, oneway, plain bool) []byte {
 	}
 	var tmo uint32
 	var extra []codec.KV
-	if sc.ReqTimeout && !plain {
+	if sc.ReqTimeout {
 		tmo = uint32(sc.GlobalMs)
-		if sc.TryMs > 0 {
+		if sc.TryMs > 0 && !plain {
 			extra = append(extra, codec.KV{K: []byte("x-mosn-try-timeout"), V: []byte(strconv.Itoa(sc.TryMs))})
 		}
 	}
